@@ -65,6 +65,8 @@
 From Coq Require Import List QArith.
 From PV Require Import Lib.Py Model.Graph Model.Validate.
 From PV Require Import Proofs.C01Base Proofs.C01 Proofs.C12Base Proofs.C12.
+From PV Require Import Model.Fail Model.ValidateFail.
+From PV Require Import Proofs.C12Chain Proofs.C12FailBase Proofs.C12Fail.
 Import ListNotations.
 Local Open Scope nat_scope.
 
@@ -159,8 +161,6 @@ Proof. exact all_formulas_lt. Qed.
 Print Assumptions C12_outputs_default.
 
 (* ====================================================== cells that raise ==== *)
-From PV Require Import Model.Fail Model.ValidateFail.
-From PV Require Import Proofs.C12Chain Proofs.C12FailBase Proofs.C12Fail.
 
 (* the machine under the loop is the machine of C09 (Model/Fail.v), with the
    message of the exception carried along: same state, same value, same class *)
